@@ -218,5 +218,6 @@ func TestVerifC26(t *testing.T) {
 				}
 			}
 			x.Outcome(fmt.Sprintf("blocks=%d/%d", mon[0].blocks, mon[1].blocks))
+			x.State(fmt.Sprintf("%d/%d|%v/%v|%d|%v", mon[0].blocks, mon[1].blocks, mon[0].flagged, mon[1].flagged, b.sequence.Peek(), lister.avail))
 		})
 }
